@@ -445,6 +445,9 @@ def orc_c15(case, obs):
             enabled, maxn, run = True, 0, 0
         elif t[0] == "EENMAX":
             enabled, maxn, run = True, int(t[1]), 0
+        elif t[0] == "EISEN":
+            if ob != "ok %d" % (1 if enabled else 0):
+                bad.append("is_enabled_re_use_label answers %s, the last setting was %s" % (ob, "enabled" if enabled else "disabled"))
         elif t[0] in ("ENCAP", "EEXT") and e is not None and e.ok:
             lab = t[4]
             lt = (e.pkt[0] >> 4) & 3
@@ -483,8 +486,16 @@ def gen_c15(rng, t):
                     c.add("ENCAP g6.1 0 2048 %s %d 1" % (lab, rng.range(0, 8)))      # too small: fails or fragments
                 elif kind < 9:
                     c.add("ENCAP g66000.1 0 2048 %s 80 1" % lab)                      # PDU too long: fails late
-                else:
+                elif rng.chance(0.5):
                     c.add("EEXT g6.1 0 2048 %s 60 1 0200:0102" % lab)
+                else:
+                    # encap_ext calls rejected before anything is written: forbidden protocol type, final mandatory id that is
+                    # not the last extension's, no extension, too small a buffer; the next packet must not notice them
+                    c.add(rng.choice(["EEXT g6.1 0 %d %s 60 1 0200:0102" % (rng.choice(PTYPES_BAD), lab),
+                                      "EEXT g6.1 0 129 %s 60 1 0200:0102" % lab,
+                                      "EEXT g6.1 0 2048 %s 60 1 -" % lab,
+                                      "EEXT g6.1 0 2048 %s %d 1 0200:0102" % (lab, rng.range(0, 10)),
+                                      "EEXT g66000.1 0 2048 %s 80 1 0200:0102" % lab]))
             elif r < 14:
                 c.add("ERESET")
             elif r < 15:
@@ -493,6 +504,8 @@ def gen_c15(rng, t):
                 c.add("EEN")
             else:
                 c.add("EENMAX %d" % rng.choice([1, 2, 3, 255]))
+            if r >= 13 and rng.chance(0.5):
+                c.add("EISEN")
         out.append(c)
     # counter wrap: long runs with max 255
     c = Case("c15_long")
@@ -504,7 +517,7 @@ def gen_c15(rng, t):
 
 
 prop("C15", ["c15_link", "c15_invariant", "c15_disabled", "c15_sub_only_same", "c15_after_reset_or_bcast", "c15_max"],
-     ["ENC"], gen_c15, [orc_c15])
+     ["ENC", "ENCX"], gen_c15, [orc_c15])
 
 
 # ------------------------------------------------------------------------------------------------
@@ -1773,7 +1786,8 @@ def gen_c13(rng, t):
             bl = rng.choice([rng.range(7 + ll + tle, full + 3), rng.range(7 + ll + tle, full + 3), rng.range(7 + ll + tle, full + 3),
                              rng.range(0, 7 + ll + tle + 2), full, full - 1, 7 + ll + tle, 6 + ll + tle])
         c.add("EEXT %s %d %d %s %d %d %s" % (pdu_tok(rng, pl), fid, pt, lab, max(0, bl), rng.below(99), exts_tok(ch)))
-        c.add("DECAPN -")
+        # c13 tail: the packet alone, or followed by other bytes in the receive buffer (consumed must not depend on them)
+        c.add("DECAPN -" if rng.chance(0.6) else "DECAPL %s" % hx(rng.bytes(rng.choice([1, 2, 5, 9]))))
         for k in range(min(pl + 2, 12) if not big else 6):
             fb = rng.choice([13, 13, rng.range(7, 30), 4097]) if not big else rng.choice([4097, 5000, 3000])
             c.add("EFRAGC %d %d" % (fb, rng.below(99)), "DECAPN -")
@@ -1881,7 +1895,7 @@ def orc_c13(case, obs):
                 continue
             if e.n != len(e.pkt) or ((e.pkt[0] & 0x0F) << 8 | e.pkt[1]) + 2 != e.n:
                 bad.append("reported length %d, on-wire GSE length + 2 = %d" % (e.n, ((e.pkt[0] & 0x0F) << 8 | e.pkt[1]) + 2))
-            if mgr is None or i + 1 >= len(ops) or not ops[i + 1].startswith("DECAPN"):
+            if mgr is None or i + 1 >= len(ops) or not ops[i + 1].startswith(("DECAPN", "DECAPL")):
                 continue
             view = c13_receiver_view(mgr, chain, pt)
             adequate = maxpdu >= len(pdu) and prov and max(prov) >= len(pdu) and "DPROVBACK" not in ops[i:] \
@@ -1908,7 +1922,7 @@ def orc_c13(case, obs):
                         done = (f.status == "C")
                     else:
                         pending = None
-                elif o2.startswith("DECAPN"):
+                elif o2.startswith(("DECAPN", "DECAPL")):
                     if pending is None or b2 == "nopkt":
                         continue
                     w, d = kv(b2)
@@ -1931,6 +1945,6 @@ def orc_c13(case, obs):
     return bad
 
 
-prop("C13", ["c13_encap_ext_total", "c13_complete_roundtrip", "c13_fragmented_roundtrip", "c13_encodable",
+prop("C13", ["c13_encap_ext_total", "c13_complete_roundtrip", "c13_fragmented_roundtrip", "c13_encodable", "c13_decodable",
              "c13_unknown_whole_packet", "c13_unknown_mandatory", "c13_new"], ["EXT", "ENCX", "SYS"], gen_c13, [orc_c13],
      exhaustive="thorough tier: Extension::new on all 65536 ids x data lengths 0..=10")
